@@ -172,12 +172,14 @@ func main() {
 				delete(f.Objects, k)
 			}
 			st := newStore(f, "bkt/"+strings.TrimSuffix(prefix, "/"), desync.StoreOptions{Uncompressed: unc})
+			distinct := map[desync.ChunkID]bool{}
 			for i := 0; i < 12; i++ {
 				d := make([]byte, []int{1, 100, 4000, 70000}[i%4])
 				if i%3 != 0 {
 					r.Read(d)
 				}
 				c := desync.NewChunk(d)
+				distinct[c.ID()] = true // two of the one-byte chunks may be equal
 				must(st.StoreChunk(c))
 				k := keyOf(prefix, c.ID(), unc)
 				got, ok := f.Get(k)
@@ -192,7 +194,7 @@ func main() {
 						what = "compressed object is not one zstd frame of the chunk"
 					}
 				}
-				w.Emit(J{"ev": "s3op", "op": "layout", "script": []string{}, "R": 0, "verify": true, "res": "", "attempts": 0, "stored": ok, "unc": unc, "prefix": prefix, "ok": okc && len(f.Keys()) == i+1, "what": what})
+				w.Emit(J{"ev": "s3op", "op": "layout", "script": []string{}, "R": 0, "verify": true, "res": "", "attempts": 0, "stored": ok, "unc": unc, "prefix": prefix, "ok": okc && len(f.Keys()) == len(distinct), "what": what})
 			}
 		}
 	}
